@@ -712,6 +712,8 @@ let gen_vrand seed count lo hi =
     let pages = (match h with 7 | 8 -> 3 | 9 -> 2 | _ -> pages) in
     let len = 4096 * pages in
     let kind = pick ["conc"; "local"] and st = pick [2; 3; 3] in
+    (* histories 10-15 of every run: a LOCAL three-stage buffer whose iterators are dropped in each of the six orders *)
+    let (kind, st) = if h >= 10 && h <= 15 then ("local", 3) else (kind, st) in
     let item = if owned then pick ["owned"; "owned24"; "owned4"] else "plain" in
     (* owned items: also buffers built from a Vec of live items, with exact and with spare capacity (the vmem constructor copies the
        items into the mapping and must hand each of them over exactly once) *)
@@ -746,7 +748,18 @@ let gen_vrand seed count lo hi =
            let w = List.hd (String.split_on_char ' ' t) in
            if w <> "resplit" && w <> "dropbuf" && w <> "getmult" then emit t
          done
-       with Exit -> ())
+       with Exit -> ());
+      (* the session ends with the iterators that are left dropped in a random order: the release of the mapping (items destroyed once,
+         both views unmapped) must not depend on who leaves last *)
+      if not !s.freed then begin
+        let perms = [| [P; W; C]; [P; C; W]; [W; P; C]; [W; C; P]; [C; P; W]; [C; W; P] |] in
+        let left = ref (if h >= 10 && h <= 15 then List.filter (fun k -> List.mem k (stages !s)) perms.(h - 10) else stages !s) in
+        while !left <> [] do
+          let k = if h >= 10 && h <= 15 then List.hd !left else pick !left in
+          left := List.filter (fun x -> x <> k) !left;
+          if not !s.freed && usable k !s then emit ("drop " ^ sname k)
+        done
+      end
   done
 
 (* ---------- exhaustive transition coverage (G-exh) over the index / cache / detached layer ---------- *)
